@@ -1,6 +1,8 @@
 package gssapi
 
 import (
+	"github.com/jcmturner/gokrb5/v8/crypto"
+	"github.com/jcmturner/gokrb5/v8/types"
 	"github.com/jcmturner/gokrb5/v8/zzverif"
 )
 
@@ -119,5 +121,194 @@ func VH_C17_MICMarshal() {
 	zzverif.Assert("roundtrip-checksum", zzverif.EqBytes(back.Checksum, mt.Checksum))
 	err = back.Unmarshal(b, mt.Flags&1 != 1)
 	zzverif.Assert("wrong-direction-rejected", err != nil)
+	zzverif.Reach("done")
+}
+
+// ---- C17: checksum binding (RFC 4121 4.2.4: checksum over payload | header with EC and RRC zero) -------
+
+func vhWrapHeader(flags byte, seq uint64) []byte {
+	h := []byte{0x05, 0x04, flags, 0xFF, 0, 0, 0, 0}
+	for i := 0; i < 8; i++ {
+		h = append(h, byte(seq>>(56-8*uint(i))))
+	}
+	return h
+}
+
+func vhMICHeader(flags byte, seq uint64) []byte {
+	h := []byte{0x04, 0x04, flags, 0xFF, 0xFF, 0xFF, 0xFF, 0xFF}
+	for i := 0; i < 8; i++ {
+		h = append(h, byte(seq>>(56-8*uint(i))))
+	}
+	return h
+}
+
+// VH_C17_WrapChecksum: SetCheckSum stores cksum(key, usage, payload | header-with-EC=RRC=0) as the RFC
+// reference computes it; Verify succeeds exactly for that value; any change of payload, flags,
+// sequence number, key or usage between computation and verification fails (idealised MAC).
+func VH_C17_WrapChecksum() {
+	et, n := zzverif.Param("etype"), zzverif.Param("n")
+	key := types.EncryptionKey{KeyType: int32(et), KeyValue: zzverif.Bytes(crypto.VHKeyLen(et))}
+	usage := zzverif.Uint32()
+	wt := WrapToken{Flags: zzverif.Byte(), EC: uint16(crypto.VHMacLen(et)), RRC: zzverif.Uint16(), SndSeqNum: zzverif.Uint64(), Payload: zzverif.Bytes(n)}
+	err := wt.SetCheckSum(key, usage)
+	zzverif.Assert("setchecksum-ok", err == nil)
+	want := crypto.VHSpecChecksum(et, key.KeyValue, append(append([]byte{}, wt.Payload...), vhWrapHeader(wt.Flags, wt.SndSeqNum)...), usage)
+	zzverif.Assert("checksum-equals-rfc4121", zzverif.EqBytes(wt.CheckSum, want))
+	ok, _ := wt.Verify(key, usage)
+	zzverif.Assert("verify-accepts-own-checksum", ok)
+	// Verify is exact: truncated / extended / changed checksums fail
+	t2 := wt
+	t2.CheckSum = want[:len(want)-1]
+	ok, _ = t2.Verify(key, usage)
+	zzverif.Assert("verify-rejects-truncated-checksum", !ok)
+	t2.CheckSum = append(append([]byte{}, want...), zzverif.Byte())
+	ok, _ = t2.Verify(key, usage)
+	zzverif.Assert("verify-rejects-extended-checksum", !ok)
+	t2.CheckSum = []byte{}
+	t2.EC = 0
+	ok, _ = t2.Verify(key, usage)
+	zzverif.Assert("verify-rejects-empty-checksum", !ok)
+	cand := zzverif.Bytes(len(want))
+	t2.CheckSum = cand
+	t2.EC = wt.EC
+	ok, _ = t2.Verify(key, usage)
+	zzverif.Assert("verify-iff-exact-checksum", ok == zzverif.EqBytes(cand, want))
+	zzverif.Reach("done")
+}
+
+// VH_C17_WrapBinding: every field the checksum must bind.
+func VH_C17_WrapBinding() {
+	et, n, mode := zzverif.Param("etype"), zzverif.Param("n"), zzverif.Param("mode")
+	key := types.EncryptionKey{KeyType: int32(et), KeyValue: zzverif.Bytes(crypto.VHKeyLen(et))}
+	usage := zzverif.Uint32()
+	wt := WrapToken{Flags: zzverif.Byte(), EC: uint16(crypto.VHMacLen(et)), RRC: zzverif.Uint16(), SndSeqNum: zzverif.Uint64(), Payload: zzverif.Bytes(n)}
+	zzverif.Assert("setchecksum-ok", wt.SetCheckSum(key, usage) == nil)
+	t2 := wt
+	k2, u2 := key, usage
+	switch mode {
+	case 0:
+		t2.Payload = zzverif.Bytes(n)
+		zzverif.Assume(!zzverif.EqBytes(t2.Payload, wt.Payload))
+	case 1:
+		t2.Flags = zzverif.Byte()
+		zzverif.Assume(t2.Flags != wt.Flags)
+	case 2:
+		t2.SndSeqNum = zzverif.Uint64()
+		zzverif.Assume(t2.SndSeqNum != wt.SndSeqNum)
+	case 3:
+		k2.KeyValue = zzverif.Bytes(len(key.KeyValue))
+		zzverif.Assume(!zzverif.EqBytes(vhEffKey(et, k2.KeyValue), vhEffKey(et, key.KeyValue)))
+	case 4:
+		u2 = zzverif.Uint32()
+		zzverif.Assume(u2 != usage)
+		if et == 23 {
+			zzverif.Assume(vhRC4Alias(u2) != vhRC4Alias(usage))
+		}
+	}
+	ok, _ := t2.Verify(k2, u2)
+	zzverif.Assert("changed-field-fails-verification", !ok)
+	zzverif.Reach("checked")
+}
+
+func vhRC4Alias(u uint32) uint32 {
+	switch u {
+	case 3, 9:
+		return 8
+	case 23:
+		return 13
+	}
+	return u
+}
+
+func vhEffKey(et int, k []byte) []byte {
+	if et != 16 {
+		return k
+	}
+	out := make([]byte, len(k))
+	for i := range k {
+		out[i] = k[i] &^ 1
+	}
+	return out
+}
+
+func VH_C17_MICChecksum() {
+	et, n := zzverif.Param("etype"), zzverif.Param("n")
+	key := types.EncryptionKey{KeyType: int32(et), KeyValue: zzverif.Bytes(crypto.VHKeyLen(et))}
+	usage := zzverif.Uint32()
+	mt := MICToken{Flags: zzverif.Byte(), SndSeqNum: zzverif.Uint64(), Payload: zzverif.Bytes(n)}
+	zzverif.Assert("setchecksum-ok", mt.SetChecksum(key, usage) == nil)
+	want := crypto.VHSpecChecksum(et, key.KeyValue, append(append([]byte{}, mt.Payload...), vhMICHeader(mt.Flags, mt.SndSeqNum)...), usage)
+	zzverif.Assert("checksum-equals-rfc4121", zzverif.EqBytes(mt.Checksum, want))
+	ok, _ := mt.Verify(key, usage)
+	zzverif.Assert("verify-accepts-own-checksum", ok)
+	t2 := mt
+	t2.Checksum = want[:len(want)-1]
+	ok, _ = t2.Verify(key, usage)
+	zzverif.Assert("verify-rejects-truncated-checksum", !ok)
+	t2.Checksum = append(append([]byte{}, want...), zzverif.Byte())
+	ok, _ = t2.Verify(key, usage)
+	zzverif.Assert("verify-rejects-extended-checksum", !ok)
+	cand := zzverif.Bytes(len(want))
+	t2.Checksum = cand
+	ok, _ = t2.Verify(key, usage)
+	zzverif.Assert("verify-iff-exact-checksum", ok == zzverif.EqBytes(cand, want))
+	// end to end: marshal, flip nothing, unmarshal, verify
+	b, err := mt.Marshal()
+	zzverif.Assert("marshal-ok", err == nil)
+	var back MICToken
+	zzverif.Assert("unmarshal-ok", back.Unmarshal(b, mt.Flags&1 == 1) == nil)
+	back.Payload = mt.Payload
+	ok, _ = back.Verify(key, usage)
+	zzverif.Assert("marshalled-token-verifies", ok)
+	zzverif.Reach("done")
+}
+
+func VH_C17_MICBinding() {
+	et, n, mode := zzverif.Param("etype"), zzverif.Param("n"), zzverif.Param("mode")
+	key := types.EncryptionKey{KeyType: int32(et), KeyValue: zzverif.Bytes(crypto.VHKeyLen(et))}
+	usage := zzverif.Uint32()
+	mt := MICToken{Flags: zzverif.Byte(), SndSeqNum: zzverif.Uint64(), Payload: zzverif.Bytes(n)}
+	zzverif.Assert("setchecksum-ok", mt.SetChecksum(key, usage) == nil)
+	t2 := mt
+	k2, u2 := key, usage
+	switch mode {
+	case 0:
+		t2.Payload = zzverif.Bytes(n)
+		zzverif.Assume(!zzverif.EqBytes(t2.Payload, mt.Payload))
+	case 1:
+		t2.Flags = zzverif.Byte()
+		zzverif.Assume(t2.Flags != mt.Flags)
+	case 2:
+		t2.SndSeqNum = zzverif.Uint64()
+		zzverif.Assume(t2.SndSeqNum != mt.SndSeqNum)
+	case 3:
+		k2.KeyValue = zzverif.Bytes(len(key.KeyValue))
+		zzverif.Assume(!zzverif.EqBytes(vhEffKey(et, k2.KeyValue), vhEffKey(et, key.KeyValue)))
+	case 4:
+		u2 = zzverif.Uint32()
+		zzverif.Assume(u2 != usage)
+		if et == 23 {
+			zzverif.Assume(vhRC4Alias(u2) != vhRC4Alias(usage))
+		}
+	}
+	ok, _ := t2.Verify(k2, u2)
+	zzverif.Assert("changed-field-fails-verification", !ok)
+	zzverif.Reach("checked")
+}
+
+// VH_C17_InitiatorTokens: the constructors produce initiator tokens (flags 0, sequence 0) with the
+// RFC 4121 key usages 24 (initiator seal) and 25 (initiator sign) and EC = checksum length.
+func VH_C17_InitiatorTokens() {
+	et, n := zzverif.Param("etype"), zzverif.Param("n")
+	key := types.EncryptionKey{KeyType: int32(et), KeyValue: zzverif.Bytes(crypto.VHKeyLen(et))}
+	payload := zzverif.Bytes(n)
+	wt, err := NewInitiatorWrapToken(payload, key)
+	zzverif.Assert("wrap-ok", err == nil)
+	zzverif.Assert("wrap-initiator-fields", zzverif.All(wt.Flags == 0, wt.RRC == 0, wt.SndSeqNum == 0, int(wt.EC) == crypto.VHMacLen(et)))
+	zzverif.Assert("wrap-checksum-usage-24", zzverif.EqBytes(wt.CheckSum, crypto.VHSpecChecksum(et, key.KeyValue, append(append([]byte{}, payload...), vhWrapHeader(0, 0)...), 24)))
+	mt, err := NewInitiatorMICToken(payload, key)
+	zzverif.Assert("mic-ok", err == nil)
+	zzverif.Assert("mic-initiator-fields", zzverif.And(mt.Flags == 0, mt.SndSeqNum == 0))
+	zzverif.Assert("mic-checksum-usage-25", zzverif.EqBytes(mt.Checksum, crypto.VHSpecChecksum(et, key.KeyValue, append(append([]byte{}, payload...), vhMICHeader(0, 0)...), 25)))
 	zzverif.Reach("done")
 }
